@@ -35,10 +35,50 @@ def cases(tier, seed):
     for nf in (2, 3) if tier == "quick" else (1, 2, 3, 4):
         for a in cfgs:
             yield {"hist": True, "nf": nf, "first": list(a), "then": [list(b_) for b_ in cfgs if b_ != a]}
+    # tall batches: a ladder of row counts (not multiples of any power of two) x output widths, output cells <= cap
+    cap = 4_000_000 if tier == "quick" else 24_000_000
+    for (nf, deg, io, bias) in ((1, 1, False, True), (3, 3, False, True), (6, 3, True, False), (12, 3, False, True)):
+        from math import comb
+        ncol = sum(comb(nf, d) if io else comb(nf + d - 1, d) for d in range(0 if bias else 1, deg + 1))
+        for rows in (1023, 4099, 32771, 131101, 600011, 2000003):
+            if rows * ncol > cap:
+                continue
+            for kind in ("poly", "poly-slow"):
+                yield {"nf": nf, "deg": deg, "io": io, "bias": bias, "kind": kind, "rows": rows}
     # a wide case: lexicographic feature-name order (x10 < x2) must not change the monomial
     for kind in ("poly", "poly-slow"):
         yield {"nf": 12, "deg": 2, "io": False, "bias": True, "kind": kind}
         yield {"nf": 11, "deg": 3, "io": True, "bias": False, "kind": kind}
+
+
+def _run_tall(case):
+    """Batches of many rows: every row of a tall batch must still be the monomials of that row (block-wise processing,
+    output-size thresholds). Integer-valued cells keep every product exact, so the comparison is bitwise."""
+    import numpy
+    from sklearn.preprocessing import PolynomialFeatures
+    from mlinsights.mlmodel import ExtendedFeatures
+    nf, deg, io, bias, kind, rows = case["nf"], case["deg"], case["io"], case["bias"], case["kind"], case["rows"]
+    viol = []
+    i = numpy.arange(rows, dtype=numpy.float64)
+    X = numpy.column_stack([((i * (3 + 2 * j) + j) % (997 if j == 0 else 5 + j)) + 1.0 for j in range(nf)])
+    ref = PolynomialFeatures(degree=deg, interaction_only=io, include_bias=bias).fit(X[:4])
+    exp = ref.transform(X)
+    cond = "kind=%s,interaction_only=%s,tall batch" % (kind, io)
+    for order in ("C", "F"):
+        Xo = numpy.asarray(X, order=order)
+        try:
+            ext = ExtendedFeatures(kind=kind, poly_degree=deg, poly_interaction_only=io, poly_include_bias=bias).fit(X[:4])
+            got = numpy.asarray(ext.transform(Xo))
+            if got.shape != exp.shape:
+                viol.append({"sig": "ExtendedFeatures|shape|" + cond, "msg": "%r vs %r %r" % (got.shape, exp.shape, case)})
+            elif not numpy.array_equal(got, exp):
+                badrows = numpy.nonzero((got != exp).any(axis=1))[0]
+                viol.append({"sig": "ExtendedFeatures|column differs|" + cond,
+                             "msg": "%d of %d rows differ from PolynomialFeatures, first %d (%s-ordered input) %r" % (
+                                 len(badrows), rows, badrows[0], order, case)})
+        except Exception as e:
+            viol.append({"sig": "ExtendedFeatures|raises %s|%s" % (type(e).__name__, cond), "msg": "%s %r" % (str(e)[:200], case)})
+    return {"viol": viol[:2], "nontrivial": True, "states": 2, "transitions": 2 * rows, "outcome": ("tall", exp.shape)}
 
 
 def _parse_name(name, feats):
@@ -98,6 +138,8 @@ def run_case(case):
 
     if case.get("hist"):
         return _run_hist(case)
+    if case.get("rows"):
+        return _run_tall(case)
 
     nf, deg, io, bias, kind = case["nf"], case["deg"], case["io"], case["bias"], case["kind"]
     viol = []
